@@ -9,20 +9,26 @@
 //!         node data loss and replica restarts.  The reaction of the PoA service to leader_state
 //!         and to a failed production (service.rs try_to_produce_block /
 //!         handle_normal_block_production, importer.rs: publish before commit) is replayed by hand.
+#[cfg(feature = "adapter")]
 mod server;
 mod standin;
 
+use standin::{t_bytes, t_entry, t_reply, Node};
+use vcommon::{Rng, T};
+
+#[cfg(feature = "adapter")]
+mod sysrun {
+use super::*;
 use fuel_core::service::adapters::consensus_module::poa::RedisLeaderLeaseAdapter;
 use fuel_core_importer::ports::BlockReconciliationWritePort;
 use fuel_core_poa::ports::{BlockReconciliationReadPort, LeaderState};
 use fuel_core_types::blockchain::{block::Block, consensus::Consensus, SealedBlock};
-use server::Servers;
-use standin::{t_bytes, t_entry, t_reply, Node};
+use crate::server::Servers;
 use std::time::{Duration, Instant};
-use vcommon::{Rng, T};
 
 const LEASE_KEY: &str = "poa:leader:lock";
-const NODE_TIMEOUT_MS: u64 = 80;
+/// generous: the sandbox can be heavily loaded; a request that is not held back must never time out
+const NODE_TIMEOUT_MS: u64 = 500;
 
 fn make_block(height: u32, variant: u64) -> SealedBlock {
     let mut block = Block::default();
@@ -32,57 +38,7 @@ fn make_block(height: u32, variant: u64) -> SealedBlock {
     SealedBlock { entity: block, consensus: Consensus::PoA(Default::default()) }
 }
 
-fn block_name(height: u32, variant: u64) -> Vec<u8> {
-    format!("b{height}.{variant}").into_bytes()
-}
 
-// ---------------------------------------------------------------------------------------
-// kind 0
-
-fn owner_name(o: u64) -> Vec<u8> {
-    format!("owner-{o}").into_bytes()
-}
-
-fn run_node(cmds: &[T]) -> T {
-    let mut nd = Node::default();
-    let mut out = vec![];
-    let id = |b: &[u8]| b.to_vec();
-    for c in cmds {
-        let c = c.as_l();
-        let dec = |i: usize| c[i].as_u128().to_string().into_bytes();
-        let reply = match c[0].as_i() {
-            0 => nd.exec(0, &[owner_name(c[1].as_u64())]),
-            1 => nd.exec(1, &[owner_name(c[1].as_u64()), dec(2)]),
-            2 => nd.exec(2, &[owner_name(c[1].as_u64())]),
-            3 => nd.exec(
-                3,
-                &[dec(1), owner_name(c[2].as_u64()), dec(3), block_name(c[3].as_u32(), c[4].as_u64()), dec(5), dec(6)],
-            ),
-            4 => nd.exec(4, &[]),
-            5 => nd.exec(5, &[dec(1), dec(2)]),
-            6 => {
-                nd.now += c[1].as_u64();
-                standin::Reply::Nil
-            }
-            7 => {
-                nd.trim = c[1].as_u64();
-                standin::Reply::Nil
-            }
-            8 => {
-                nd.wipe();
-                standin::Reply::Nil
-            }
-            x => panic!("bad node command {x}"),
-        };
-        let owner = match nd.owner() {
-            Some(o) => t_bytes(&o),
-            None => T::L(vec![]),
-        };
-        out.push(T::L(vec![t_reply(&reply, &id), T::n(nd.epoch_num()), owner]));
-    }
-    let stream = nd.stream.as_deref().unwrap_or(&[]).iter().map(|e| t_entry(e, &id)).collect();
-    T::L(vec![T::L(out), T::L(stream)])
-}
 
 // ---------------------------------------------------------------------------------------
 // kind 1
@@ -263,7 +219,7 @@ impl Sys {
     }
 }
 
-fn run_sys(cfg: &[T], steps: &[T]) -> T {
+pub fn run_sys(cfg: &[T], steps: &[T]) -> T {
     let n = cfg[0].as_usize();
     let nreps = cfg[1].as_usize();
     let rt = tokio::runtime::Builder::new_multi_thread().worker_threads(2).enable_all().build().expect("rt");
@@ -393,6 +349,61 @@ impl Sys {
     }
 }
 
+
+}
+
+// ---------------------------------------------------------------------------------------
+// kind 0
+
+fn block_name(height: u32, variant: u64) -> Vec<u8> {
+    format!("b{height}.{variant}").into_bytes()
+}
+
+fn owner_name(o: u64) -> Vec<u8> {
+    format!("owner-{o}").into_bytes()
+}
+
+fn run_node(cmds: &[T]) -> T {
+    let mut nd = Node::default();
+    let mut out = vec![];
+    let id = |b: &[u8]| b.to_vec();
+    for c in cmds {
+        let c = c.as_l();
+        let dec = |i: usize| c[i].as_u128().to_string().into_bytes();
+        let reply = match c[0].as_i() {
+            0 => nd.exec(0, &[owner_name(c[1].as_u64())]),
+            1 => nd.exec(1, &[owner_name(c[1].as_u64()), dec(2)]),
+            2 => nd.exec(2, &[owner_name(c[1].as_u64())]),
+            3 => nd.exec(
+                3,
+                &[dec(1), owner_name(c[2].as_u64()), dec(3), block_name(c[3].as_u32(), c[4].as_u64()), dec(5), dec(6)],
+            ),
+            4 => nd.exec(4, &[]),
+            5 => nd.exec(5, &[dec(1), dec(2)]),
+            6 => {
+                nd.now += c[1].as_u64();
+                standin::Reply::Nil
+            }
+            7 => {
+                nd.trim = c[1].as_u64();
+                standin::Reply::Nil
+            }
+            8 => {
+                nd.wipe();
+                standin::Reply::Nil
+            }
+            x => panic!("bad node command {x}"),
+        };
+        let owner = match nd.owner() {
+            Some(o) => t_bytes(&o),
+            None => T::L(vec![]),
+        };
+        out.push(T::L(vec![t_reply(&reply, &id), T::n(nd.epoch_num()), owner]));
+    }
+    let stream = nd.stream.as_deref().unwrap_or(&[]).iter().map(|e| t_entry(e, &id)).collect();
+    T::L(vec![T::L(out), T::L(stream)])
+}
+
 fn main() {
     vcommon::main_protocol(gen, |_prop, input| {
         let input = input.clone();
@@ -400,7 +411,8 @@ fn main() {
             let l = input.as_l();
             match l[0].as_i() {
                 0 => run_node(l[1].as_l()),
-                1 => run_sys(l[1].as_l(), l[2].as_l()),
+                #[cfg(feature = "adapter")]
+                1 => sysrun::run_sys(l[1].as_l(), l[2].as_l()),
                 x => panic!("bad kind {x}"),
             }
         })
@@ -477,7 +489,8 @@ fn gen_sys_case(rng: &mut Rng, tier: &str) -> T {
     let n = *rng.pick(&[3usize, 3, 3, 1, 2, 5]);
     let reps = rng.range(2, 3) as usize;
     let budget = if n >= 5 && rng.chance(1, 2) { 1u64 } else { 0 };
-    let ttl = *rng.pick(&[1000u64, 1000, 1000, 5000, 2]);
+    // far above any real round trip (the model takes elapsed = 0), or so small that the validity window is empty
+    let ttl = *rng.pick(&[100_000u64, 100_000, 100_000, 500_000, 2]);
     let maxlen = *rng.pick(&[100u64, 100, 100, 2, 3]);
     let attempts = rng.range(1, 2);
     let len = if tier == "quick" { rng.range(4, 12) } else { rng.range(4, 20) };
@@ -536,19 +549,22 @@ fn gen_sys_case(rng: &mut Rng, tier: &str) -> T {
 /// scan of write_block.lua admits a second block at it
 fn l1_schedule() -> T {
     T::parse(
-        "(1 (3 3 0 1000 100 1) ((0 0 (() () (0 0 0 1))) (2 0 2000) (2 1 2000) (2 2 2000) (0 2 ()) \
-         (2 0 2000) (2 1 2000) (2 2 2000) (0 0 ((0 0 0 1))) (2 0 2000) (2 1 2000) (2 2 2000) \
-         (0 1 ((0 0 0 1))) (2 0 2000) (2 1 2000) (2 2 2000) (0 2 (() (0 0 1)))))",
+        "(1 (3 3 0 100000 100 1) ((0 0 (() () (0 0 0 1))) (2 0 200000) (2 1 200000) (2 2 200000) (0 2 ()) \
+         (2 0 200000) (2 1 200000) (2 2 200000) (0 0 ((0 0 0 1))) (2 0 200000) (2 1 200000) (2 2 200000) \
+         (0 1 ((0 0 0 1))) (2 0 200000) (2 1 200000) (2 2 200000) (0 2 (() (0 0 1)))))",
     )
     .unwrap()
 }
 
 fn gen(_prop: &str, rng: &mut Rng, n: u64, tier: &str) -> Vec<T> {
     // n counts the script-level cases; one system schedule per 25 of them
-    let mut out = vec![l1_schedule()];
-    let nsys = (n / 25).max(4);
-    for _ in 0..nsys {
-        out.push(gen_sys_case(rng, tier));
+    let mut out = vec![];
+    if cfg!(feature = "adapter") {
+        out.push(l1_schedule());
+        let nsys = (n / 25).max(4);
+        for _ in 0..nsys {
+            out.push(gen_sys_case(rng, tier));
+        }
     }
     for i in 0..n {
         let len = if i % 10 == 0 { rng.range(30, 80) } else { rng.range(3, 25) };
